@@ -44,6 +44,8 @@ def cases(tier, seed):
         for cat in mix:
             rng.shuffle(mix[cat])
         cs.append({'kind': 'mix', 'seed': rng.randrange(1 << 30), 'mix': mix, 'unknown': i % 7 == 3, 'probes': i % 3 != 0})
+    for i in range(4 if tier == 'quick' else 40):
+        cs.append({'kind': 'mix', 'seed': rng.randrange(1 << 30), 'mix': {c_: [['clean'], ['warn', 'clean'], ['clean'], ['warn']][i % 4] for c_ in ('kex', 'key', 'enc', 'mac')}, 'unknown': False, 'probes': i % 2 == 0, 'dup': True})
     for i, cat in enumerate(('enc', 'mac', 'kex', 'key') * (1 if tier == 'quick' else 6)):
         cs.append({'kind': 'mix', 'seed': rng.randrange(1 << 30), 'mix': {c_: ['clean'] if i % 2 else ['warn', 'clean'] for c_ in ('kex', 'key', 'enc', 'mac')}, 'unknown': False, 'probes': False, 'empty_before_fail': cat})
     for i, (cm, am) in enumerate([(0x48, 0x0c), (0x08, 0x04), (0x49, 0x0c), (0x48, 0x0e), (0x7f, 0x7e)]):
@@ -166,6 +168,10 @@ def run_mix(c):
         lists[cat] = lst or [rng.choice(cls[cat]['clean'] or cls[cat]['warn'])]
     if c['unknown']:
         lists[rng.choice(['kex', 'key', 'enc', 'mac'])].append(audit.unknown_name(rng))
+    if c.get('dup'):
+        # the same names listed twice
+        for cat in lists:
+            lists[cat] = lists[cat] + lists[cat][:2]
     if c.get('empty_before_fail'):
         # an empty entry inside a list ("a,,b"), followed by a failure-rated name: what comes after the empty entry still counts
         cat = c['empty_before_fail']
@@ -178,6 +184,10 @@ def run_mix(c):
     script = {'banner': 'SSH-2.0-OpenSSH_9.%d' % rng.randint(0, 9), 'kex': audit.sym_kex(lists['kex'], lists['key'], lists['enc'], lists['mac']),
               'hostkeys': gen.hostkeys_for(lists['key']) if c['probes'] else {}, 'gex': {'sizes': [3072, 4096], 'style': 'strict'} if c['probes'] else None}
     viol, counters = [], {}
+    if c.get('dup'):
+        # the same names listed twice
+        for cat in lists:
+            lists[cat] = lists[cat] + lists[cat][:2]
     if c.get('empty_before_fail'):
         counters['empty_entry_before_failure'] = 1
     check_optsets(script, viol, counters)
